@@ -1,3 +1,374 @@
 package main
 
-func randomMain(args []string) {}
+import (
+	"bufio"
+	"encoding/json"
+	"flag"
+	"fmt"
+	"math/rand"
+	"os"
+	"sort"
+	"strings"
+	"time"
+
+	"verif/harness/vh"
+)
+
+// Random drivers (implementation -> specification direction).
+//
+// Token cases: several random edits (drop, duplicate, swap, replace, insert,
+// splice a fragment of another line) of the conformant lines TLC printed, and
+// token soups.  The driver does not know what class its lines have: it
+// records context, tokens and outcome; spec/RespFuzzTrace.tla derives the
+// class from the tokens and judges the outcome.
+//
+// Raw cases: random bytes, IMAP-flavoured byte soups and byte-level edits of
+// rendered conformant lines.  They have no token form, hence no class: they
+// are monitored only (panic, crash, non-return, resources).
+
+// tokens whose delivered value is too large to enumerate (table knowledge, like the rendering)
+var bigTokens = map[string]bool{"sBig": true, "sHalf": true}
+
+var taggedKinds = map[string]bool{"tagged": true, "login": true, "copy": true, "append": true, "appendsync": true}
+
+type traceOut struct {
+	Ret      bool   `json:"ret"`
+	Crash    bool   `json:"crash"`
+	Panic    bool   `json:"panic"`
+	AccPanic bool   `json:"accpanic"`
+	Err      bool   `json:"err"`
+	Status   string `json:"status"`
+}
+
+type traceRec struct {
+	K string   `json:"k"`
+	T []string `json:"t"`
+	O traceOut `json:"o"`
+	// not read by the judge: narrows signatures, helps reports
+	X map[string]interface{} `json:"x"`
+}
+
+func driverAlphabet(bases []Case) []string {
+	set := map[string]bool{}
+	for t := range tokenBytes {
+		set[t] = true
+	}
+	for _, b := range bases {
+		for _, t := range b.Toks {
+			set[t] = true
+		}
+	}
+	for _, t := range []string{"Nlp_10", "Nlp_999", "Nlp_1001", "Crp_10", "Crp_1001", "Nmp_10", "Cmp_10", "Nmp_1001", "Cmp_1001",
+		"Nmsg_10", "Cmsg_10", "Nthr_10", "Cthr_10", "Nthr_1001", "Nval_10", "Cval_10", "Nval_1001"} {
+		set[t] = true
+	}
+	delete(set, "litBig")
+	var l []string
+	for t := range set {
+		l = append(l, t)
+	}
+	sort.Strings(l)
+	return l
+}
+
+func editTokens(r *rand.Rand, toks []string, alpha []string, bases []Case) []string {
+	t := append([]string(nil), toks...)
+	pick := func() string { return alpha[r.Intn(len(alpha))] }
+	switch op := r.Intn(7); {
+	case len(t) == 0 || op == 0: // insert
+		i := r.Intn(len(t) + 1)
+		t = append(t[:i], append([]string{pick()}, t[i:]...)...)
+	case op == 1: // drop
+		i := r.Intn(len(t))
+		t = append(t[:i], t[i+1:]...)
+	case op == 2: // duplicate
+		i := r.Intn(len(t))
+		t = append(t[:i+1], t[i:]...)
+	case op == 3 && len(t) > 1: // swap adjacent
+		i := r.Intn(len(t) - 1)
+		t[i], t[i+1] = t[i+1], t[i]
+	case op == 4: // replace by a token another conformant line has somewhere (often keeps the line plausible)
+		o := bases[r.Intn(len(bases))].Toks
+		if len(o) > 0 {
+			t[r.Intn(len(t))] = o[r.Intn(len(o))]
+		}
+	case op == 5: // splice a fragment of another line in
+		o := bases[r.Intn(len(bases))].Toks
+		if len(o) > 2 {
+			a := r.Intn(len(o) - 1)
+			b := a + 1 + r.Intn(min(6, len(o)-a-1)+1)
+			if b > len(o) {
+				b = len(o)
+			}
+			i := r.Intn(len(t) + 1)
+			t = append(t[:i], append(append([]string(nil), o[a:b]...), t[i:]...)...)
+		}
+	default: // replace by any token
+		t[r.Intn(len(t))] = pick()
+	}
+	return t
+}
+
+func min(a, b int) int {
+	if a < b {
+		return a
+	}
+	return b
+}
+
+func tokenCases(r *rand.Rand, bases []Case, n int) []Case {
+	alpha := driverAlphabet(bases)
+	var kindList []string
+	for k := range kinds {
+		kindList = append(kindList, k)
+	}
+	sort.Strings(kindList)
+	var out []Case
+	for len(out) < n {
+		var cs Case
+		switch x := r.Intn(20); {
+		case x < 2: // soup
+			cs.Kind = kindList[r.Intn(len(kindList))]
+			m := 1 + r.Intn(12)
+			toks := []string{}
+			if r.Intn(4) > 0 {
+				toks = append(toks, "STAR", "SP")
+			}
+			for i := 0; i < m; i++ {
+				toks = append(toks, alpha[r.Intn(len(alpha))])
+				if r.Intn(2) == 0 {
+					toks = append(toks, "SP")
+				}
+			}
+			toks = append(toks, "CRLF")
+			cs.Toks = toks
+			cs.Mut = "soup"
+		default:
+			b := bases[r.Intn(len(bases))]
+			cs.Kind = b.Kind
+			cs.Base = b.Base
+			toks := b.Toks
+			edits := 0
+			switch {
+			case x < 4:
+				edits = 0
+			case x < 8:
+				edits = 1
+			default:
+				edits = 2 + r.Intn(5)
+			}
+			for i := 0; i < edits; i++ {
+				toks = editTokens(r, toks, alpha, bases)
+			}
+			cs.Toks = append([]string(nil), toks...)
+			cs.Mut = fmt.Sprintf("random-edits-%d", edits)
+		}
+		cs.End = "ok"
+		if taggedKinds[cs.Kind] {
+			cs.Tg = 1
+		}
+		cs.Small = 1
+		size := 0
+		for _, t := range cs.Toks {
+			if bigTokens[t] {
+				cs.Small = 0
+			}
+			size += len(renderToken(t))
+		}
+		if size > 1<<20 {
+			continue
+		}
+		cs.ID = len(out)
+		out = append(out, cs)
+	}
+	return out
+}
+
+const imapBytes = "()[]{}<>\"\\ \r\n*+~$%.,:-0123456789"
+
+var imapWords = []string{"NIL", "OK", "NO", "BAD", "BYE", "FETCH", "BODY", "BODYSTRUCTURE", "ENVELOPE", "UID", "FLAGS", "SEARCH", "ESEARCH",
+	"LIST", "STATUS", "THREAD", "SORT", "QUOTA", "METADATA", "NAMESPACE", "CAPABILITY", "EXISTS", "EXPUNGE", "ALL", "MIN", "TAG", "T1", "T2",
+	"\"a\"", "{3}\r\nabc", "{1}\r\n", "COPYUID", "APPENDUID", "MODSEQ", "BINARY", "INBOX", "\\Seen", "1:*", "4294967296", "* ", "\r\n"}
+
+func rawCases(r *rand.Rand, bases []Case, n int) []Case {
+	var kindList []string
+	for k := range kinds {
+		kindList = append(kindList, k)
+	}
+	sort.Strings(kindList)
+	var out []Case
+	for len(out) < n {
+		var cs Case
+		var b []byte
+		switch x := r.Intn(10); {
+		case x < 2: // uniformly random bytes
+			m := 1 + r.Intn(200)
+			b = make([]byte, m)
+			r.Read(b)
+			if r.Intn(2) == 0 {
+				b = append([]byte("* "), b...)
+			}
+			cs.Kind = kindList[r.Intn(len(kindList))]
+			cs.Mut = "raw-bytes"
+		case x < 4: // IMAP-flavoured soup
+			m := 1 + r.Intn(40)
+			var sb strings.Builder
+			if r.Intn(3) > 0 {
+				sb.WriteString("* ")
+			}
+			for i := 0; i < m; i++ {
+				if r.Intn(3) == 0 {
+					sb.WriteString(imapWords[r.Intn(len(imapWords))])
+				} else {
+					sb.WriteByte(imapBytes[r.Intn(len(imapBytes))])
+				}
+			}
+			sb.WriteString("\r\n")
+			b = []byte(sb.String())
+			cs.Kind = kindList[r.Intn(len(kindList))]
+			cs.Mut = "raw-soup"
+		default: // byte-level edits of a rendered conformant line
+			base := bases[r.Intn(len(bases))]
+			cs.Kind = base.Kind
+			cs.Base = base.Base
+			b = lineOf(&base)
+			edits := 1 + r.Intn(3)
+			for i := 0; i < edits && len(b) > 0; i++ {
+				p := r.Intn(len(b))
+				switch r.Intn(6) {
+				case 0:
+					b[p] ^= byte(1 << uint(r.Intn(8)))
+				case 1:
+					b = append(b[:p], b[p+1:]...)
+				case 2:
+					b = append(b[:p], append([]byte{byte(r.Intn(256))}, b[p:]...)...)
+				case 3:
+					b = append(b[:p], append([]byte{imapBytes[r.Intn(len(imapBytes))]}, b[p:]...)...)
+				case 4:
+					q := p + r.Intn(min(16, len(b)-p)+1)
+					b = append(b[:q], append(append([]byte(nil), b[p:q]...), b[q:]...)...)
+				case 5:
+					b = b[:p]
+				}
+			}
+			cs.Mut = fmt.Sprintf("byte-edits-%d", edits)
+		}
+		cs.Raw = append([]byte{}, b...)
+		cs.End = "ok"
+		if r.Intn(6) == 0 {
+			cs.End = "close"
+		}
+		if taggedKinds[cs.Kind] {
+			cs.Tg = 1
+		}
+		cs.Small = 0
+		cs.ID = len(out)
+		out = append(out, cs)
+	}
+	return out
+}
+
+func randomMain(args []string) {
+	fs := flag.NewFlagSet("random", flag.ExitOnError)
+	seed := fs.Int64("seed", 1, "seed")
+	n := fs.Int("n", 3000, "token cases (recorded for the judge)")
+	rawn := fs.Int("rawn", 20000, "raw cases (monitored only)")
+	shards := fs.Int("shards", 16, "parallel children")
+	fs.Parse(args[2:])
+	out := vh.NewOut()
+	defer out.Flush()
+	t0 := time.Now()
+	all, err := readCases(args[0])
+	if err != nil {
+		out.Summary(map[string]interface{}{"infra_error": err.Error()})
+		return
+	}
+	var bases []Case
+	for _, cs := range all {
+		if cs.Mut == "none" {
+			bases = append(bases, cs)
+		}
+	}
+	if len(bases) == 0 {
+		out.Summary(map[string]interface{}{"infra_error": "no conformant lines in " + args[0]})
+		return
+	}
+	r := rand.New(rand.NewSource(*seed))
+	tcs := tokenCases(r, bases, *n)
+	rcs := rawCases(r, bases, *rawn)
+
+	pool := newPool(*shards, 800)
+	tobs, err := pool.run(tcs)
+	if err != nil {
+		out.Summary(map[string]interface{}{"infra_error": err.Error()})
+		return
+	}
+	robs, err := pool.run(rcs)
+	if err != nil {
+		out.Summary(map[string]interface{}{"infra_error": err.Error()})
+		return
+	}
+
+	// token cases: record for the judge
+	fh, err := os.Create(args[1])
+	if err != nil {
+		out.Summary(map[string]interface{}{"infra_error": err.Error()})
+		return
+	}
+	w := bufio.NewWriter(fh)
+	outcomes := map[string]int{}
+	for i := range tcs {
+		cs, o := &tcs[i], tobs[i]
+		status := "OK"
+		if o.Err {
+			status = o.ErrKind
+		}
+		// the narrow signatures for what the monitors saw (the judge decides whether it is a finding)
+		probe := newReporter(nil)
+		probe.silent = true
+		probe.monitors(cs, o)
+		x := map[string]interface{}{"m": cs.Mut, "tg": cs.Tg, "sm": cs.Small}
+		if len(probe.counts) > 0 {
+			x["sigs"] = sortedKeys(probe.counts)
+			x["errtext"] = o.ErrText
+			x["crashtail"] = o.CrashTail
+		}
+		rec := traceRec{K: cs.Kind, T: cs.Toks, X: x,
+			O: traceOut{Ret: o.Returned || o.Crashed && o.CrashWhy != "time-limit", Crash: o.Crashed && o.CrashWhy != "time-limit",
+				Panic: o.Panic, AccPanic: len(o.AccPanic) > 0, Err: o.Err, Status: status}}
+		if o.Crashed && o.CrashWhy == "time-limit" {
+			rec.O.Ret = false
+		}
+		b, _ := json.Marshal(&rec)
+		w.Write(b)
+		w.WriteByte('\n')
+		switch {
+		case o.Crashed:
+			outcomes["crash"]++
+		case o.Err:
+			outcomes["error"]++
+		default:
+			outcomes["deliver"]++
+		}
+	}
+	w.Flush()
+	fh.Close()
+
+	// raw cases: monitors only
+	rep := newReporter(out)
+	rawOutcomes := map[string]int{}
+	for i := range rcs {
+		rep.monitors(&rcs[i], robs[i])
+		switch {
+		case robs[i].Crashed:
+			rawOutcomes["crash"]++
+		case robs[i].Err:
+			rawOutcomes["error"]++
+		default:
+			rawOutcomes["deliver"]++
+		}
+	}
+	out.Summary(map[string]interface{}{"traces": len(tcs), "records": len(tcs), "raw": len(rcs), "behaviours": len(tcs) + len(rcs),
+		"token_outcomes": outcomes, "raw_outcomes": rawOutcomes, "sig_counts": rep.counts,
+		"children": pool.spawned, "child_deaths": pool.deaths, "wall_s": time.Since(t0).Seconds()})
+}
